@@ -367,15 +367,15 @@ theorem dropDeprecated_arr_map {α : Type} (xs : List α) (g : α → J) (dep : 
 
 /-- the `fields` list before projection: the specification's two-step filter is the resolver's one -/
 theorem fields_value (S : Schema) (td : TypeDef) (incl : Bool) :
-    (if incl = true then J.arr ((td.fields.filter (fun f => !Spec.isBuiltinName f.name)).map (fieldJ S))
-      else dropDeprecated (J.arr ((td.fields.filter (fun f => !Spec.isBuiltinName f.name)).map (fieldJ S))))
+    (if incl = true then J.arr ((td.fields.filter (fun f => !isBuiltinName f.name)).map (fieldJ S))
+      else dropDeprecated (J.arr ((td.fields.filter (fun f => !isBuiltinName f.name)).map (fieldJ S))))
     = J.arr ((td.fields.filter (fun f =>
-        !Model.Introspect.isBuiltinName f.name && (incl || !(hasDeprecated f.directives).1))).map (fieldJ S)) := by
+        !isBuiltinName f.name && (incl || !(hasDeprecated f.directives).1))).map (fieldJ S)) := by
   cases incl with
-  | true => simp [Spec.isBuiltinName, Model.Introspect.isBuiltinName]
+  | true => simp
   | false =>
     rw [dropDeprecated_arr_map _ _ (fun f => (deprecation f.directives).isSome) (isDeprecatedJ_fieldJ S), List.filter_filter]
-    simp [Spec.isBuiltinName, Model.Introspect.isBuiltinName, hasDeprecated_fst, Bool.and_comm]
+    simp [hasDeprecated_fst, Bool.and_comm]
 
 theorem enums_value (td : TypeDef) (incl : Bool) :
     (if incl = true then J.arr (td.enumValues.map enumJ) else dropDeprecated (J.arr (td.enumValues.map enumJ)))
@@ -435,15 +435,15 @@ theorem typeP1_named_step (S : Schema) (vars : List (String × J)) (n : String) 
     simp only [typeP1, hty, fieldValue]
     rw [getKey_ref S hty "fields" (by decide) (by decide) (by decide) (by decide)]
     have hv : ((fullType S td).get? "fields").getD .null = onKinds td.kind [.object, .interface]
-        (.arr ((td.fields.filter (fun f => !Spec.isBuiltinName f.name)).map (fieldJ S))) := by
+        (.arr ((td.fields.filter (fun f => !isBuiltinName f.name)).map (fieldJ S))) := by
       simp [fullType, J.get?, J.lookup, tn]
     rw [hv]
     by_cases hkind : td.kind = .object ∨ td.kind = .interface
     · have hg : (td.kind != Kind.object && td.kind != Kind.interface) = false := by
         rcases hkind with hk' | hk' <;> simp [hk']
       have ho : onKinds td.kind [.object, .interface]
-          (.arr ((td.fields.filter (fun f => !Spec.isBuiltinName f.name)).map (fieldJ S)))
-          = .arr ((td.fields.filter (fun f => !Spec.isBuiltinName f.name)).map (fieldJ S)) := by
+          (.arr ((td.fields.filter (fun f => !isBuiltinName f.name)).map (fieldJ S)))
+          = .arr ((td.fields.filter (fun f => !isBuiltinName f.name)).map (fieldJ S)) := by
         rcases hkind with hk' | hk' <;> simp [onKinds, hk']
       rw [ho, fields_value S td (ISel.boolArg vars args "includeDeprecated")]
       simp only [hg, Bool.false_eq_true, if_false]
@@ -456,7 +456,7 @@ theorem typeP1_named_step (S : Schema) (vars : List (String × J)) (n : String) 
     · have hg : (td.kind != Kind.object && td.kind != Kind.interface) = true := by
         cases hk' : td.kind <;> simp_all
       have ho : onKinds td.kind [.object, .interface]
-          (.arr ((td.fields.filter (fun f => !Spec.isBuiltinName f.name)).map (fieldJ S))) = .null := by
+          (.arr ((td.fields.filter (fun f => !isBuiltinName f.name)).map (fieldJ S))) = .null := by
         cases hk' : td.kind <;> simp_all [onKinds]
       rw [ho]
       simp [hg, dropDeprecated]
